@@ -81,19 +81,32 @@ func extractSecure(p *pkgs, f *facts) {
 		if checkCall != nil {
 			checksCmdPath = len(checkCall.Args) == 1 && isCmdPathExpr(list[iCheck], checkCall.Args[0]) && launchArgsOK && sawRunnerCtor
 			// failure arms inside the statement that holds the call
+			// (the error arm is the FIRST thing decided about Check's result: it is not the else-branch of another test —
+			// "if this kind of error, carry on; else if err != nil …" lets that kind of error through to the launch; the
+			// mismatch arm may only follow the error arm)
 			errArm, okArm := false, false
+			elseOf := map[*ast.IfStmt]string{}
+			ast.Inspect(list[iCheck], func(n ast.Node) bool {
+				if is, ok := n.(*ast.IfStmt); ok {
+					if e, ok := is.Else.(*ast.IfStmt); ok {
+						elseOf[e] = exprString(is.Cond)
+					}
+				}
+				return true
+			})
 			ast.Inspect(list[iCheck], func(n ast.Node) bool {
 				is, ok := n.(*ast.IfStmt)
 				if !ok {
 					return true
 				}
+				parent, nested := elseOf[is]
 				switch exprString(is.Cond) {
 				case "err!=nil":
-					if returnsNonNilErr(is.Body) {
+					if returnsNonNilErr(is.Body) && !nested {
 						errArm = true
 					}
 				case "!ok":
-					if returnsNonNilErr(is.Body) {
+					if returnsNonNilErr(is.Body) && (!nested || parent == "err!=nil") {
 						okArm = true
 					}
 				}
